@@ -2483,6 +2483,9 @@ int32 tls13WriteClientHello(ssl_t *ssl, sslBuf_t *out,
                 ssl->tls13ClientCipherSuitesLen == 0)
         {
             ssl->tls13ClientCipherSuitesLen = 0;
+            /* The ClientHello can be written more than once on a session
+               (not only after a HelloRetryRequest): drop the earlier copy. */
+            psFree(ssl->tls13ClientCipherSuites, ssl->hsPool);
             ssl->tls13ClientCipherSuites = psMalloc(ssl->hsPool,
                     cipherSpecsLen * sizeof(*ssl->tls13ClientCipherSuites));
             if (ssl->tls13ClientCipherSuites == NULL)
